@@ -474,7 +474,7 @@ Proof.
     + destruct (closed sh); simpl; [auto|]. unfold scan_pc. destruct (itpos _ <? MAX_SIGNUM); intros; congruence.
     + unfold do_load, scan_pc; simpl. destruct (slot sh _); simpl; [destruct (S _ <? MAX_SIGNUM); intros; congruence|].
       intros _ _. right; right. eauto.
-    + unfold none_exit, pend_exit. destruct (closed sh); simpl; [|intros; congruence].
+    + unfold none_exit, pend_exit. destruct (closed sh); simpl; [|destruct op; intros; congruence].
       destruct poll_none_retest; simpl; [intros; congruence|]. destruct op; simpl; auto; intros; congruence.
     + unfold none_exit, pend_exit. destruct (pipe sh); simpl; [|intros; congruence].
       destruct poll_none_retest; simpl; [intros; congruence|]. destruct op; simpl; auto; intros; congruence.
